@@ -30,6 +30,7 @@ import (
 
 	"github.com/ontio/ontology/common"
 	"github.com/ontio/ontology/core/types"
+	"github.com/ontio/ontology/smartcontract/service/native/ont"
 	nutils "github.com/ontio/ontology/smartcontract/service/native/utils"
 	"github.com/ontio/ontology/verifshim/vcrash"
 	"github.com/ontio/ontology/verifshim/vh"
@@ -55,6 +56,7 @@ type c01Ref struct {
 	Roots  []string  `json:"roots"`  // state merkle root passed to AddBlock
 	Obs    []c01Obs  `json:"obs"`    // index = height (0 = genesis)
 	Dumps  []map[string]string `json:"dumps"` // per height: hex key -> sha of value (state store)
+	Records []int    `json:"records"` // per block: number of state records in its write set
 }
 
 type c01Report struct {
@@ -123,10 +125,43 @@ func c01observe(l *vLedger) (c01Obs, map[string]string) {
 
 // block kinds: e = empty, t = ONT transfer 0->1 (moves ONG too), g = ONG transfer 0->2 with a fee,
 // d = two transfers, f = a transfer that fails (over balance, fee charged)
+//
+// block-size bands (the property quantifies over blocks "carrying arbitrary token transfers", so the
+// number of state records one block changes is not bounded by a handful): B = 64 transactions of 12
+// transfers each to fresh accounts (> 1024 state records), H = 64 transactions of 24 transfers each
+// (> 2048 state records); three of four transactions move ONT (two records per fresh receiver: balance
+// and unbound-ONG time offset), every fourth moves ONG and pays a fee.
+func c01large(kind byte) bool { return kind == 'B' || kind == 'H' }
+
+func c01bigTxs(height uint32, ntx, per int) []*types.Transaction {
+	a0 := vAcct(0)
+	var txs []*types.Transaction
+	for i := 0; i < ntx; i++ {
+		token, price := nutils.OntContractAddress, uint64(0)
+		if i%4 == 3 {
+			token, price = nutils.OngContractAddress, 2500
+		}
+		var sts []*ont.TransferState
+		for j := 0; j < per; j++ {
+			h := sha256.Sum256([]byte(fmt.Sprintf("c01-receiver-%d-%d-%d", height, i, j)))
+			var to common.Address
+			copy(to[:], h[:])
+			sts = append(sts, &ont.TransferState{From: a0.Address, To: to, Value: uint64(1 + j)})
+		}
+		mt := vNativeTx(token, "transfer", []interface{}{sts}, price, 2000000, height*1024+uint32(i))
+		txs = append(txs, vSignTx(mt, a0))
+	}
+	return txs
+}
+
 func c01txs(kind byte, height uint32) []*types.Transaction {
 	a0, a1, a2 := vAcct(0), vAcct(1), vAcct(2)
 	n := height * 16
 	switch kind {
+	case 'B':
+		return c01bigTxs(height, 64, 12)
+	case 'H':
+		return c01bigTxs(height, 64, 24)
 	case 'e':
 		return nil
 	case 't':
@@ -156,6 +191,14 @@ func c01buildRef(dir string, hist string) *c01Ref {
 		if err != nil {
 			panic(err)
 		}
+		if c01large(hist[i]) {
+			for ti, nf := range res.Notify {
+				if nf.State != 1 {
+					panic(fmt.Sprintf("transaction %d of large block %d failed in the reference run", ti, i+1))
+				}
+			}
+		}
+		ref.Records = append(ref.Records, res.WriteSet.Len())
 		if err := l.ls.AddBlock(b, nil, res.MerkleRoot); err != nil {
 			panic(err)
 		}
@@ -383,6 +426,7 @@ type c01case struct {
 	Label   string `json:"label"`
 	Phase   string `json:"phase"`
 	Second  int    `json:"second_crash_at,omitempty"`
+	Band    string `json:"band,omitempty"` // crash inside a large block: its state-record band
 }
 
 func c01labelClass(label string) string {
@@ -410,12 +454,15 @@ func c01check(r *vh.Run, base, dir, refFile string, ref *c01Ref, cs c01case, old
 	b, err := os.ReadFile(outFile)
 	os.Remove(outFile)
 	if err != nil {
-		r.Violationf("recovery-process-died:"+c01labelClass(cs.Label), cs, "history %s crash at point %d (%s, %s): the reopening process died: %v\n%s", cs.History, cs.CrashAt, cs.Label, cs.Phase, ch.err, tail(ch.out, 1500))
+		r.Violationf("recovery-process-died:"+c01labelClass(cs.Label)+c01bandSuffix(cs), cs, "history %s crash at point %d (%s, %s): the reopening process died: %v\n%s", cs.History, cs.CrashAt, cs.Label, cs.Phase, ch.err, tail(ch.out, 1500))
 		return nil, false
 	}
 	rep = &c01Report{}
 	json.Unmarshal(b, rep)
 	cls := c01labelClass(cs.Label)
+	if cs.Band != "" {
+		cls += "/large-block"
+	}
 	bad := func(kind, detail string) {
 		r.Violationf(kind+"@"+cls, cs, "history %s, crash at point %d (%s, during %s): %s", cs.History, cs.CrashAt, cs.Label, cs.Phase, detail)
 		ok = false
@@ -468,6 +515,13 @@ func c01check(r *vh.Run, base, dir, refFile string, ref *c01Ref, cs c01case, old
 	return
 }
 
+func c01bandSuffix(cs c01case) string {
+	if cs.Band != "" {
+		return "/large-block"
+	}
+	return ""
+}
+
 func tail(s string, n int) string {
 	if len(s) > n {
 		return s[len(s)-n:]
@@ -476,8 +530,10 @@ func tail(s string, n int) string {
 }
 
 func c01histories(r *vh.Run) []string {
+	// large-block histories (see c01large): only the crash points of the large blocks themselves are
+	// explored in them, the small blocks around them give the old state and the following block
 	if r.Quick() {
-		return []string{"tge", "dft", "eet", "gdd"}
+		return []string{"tge", "dft", "eet", "gdd", "tHg"}
 	}
 	var hs []string
 	kinds := "etgdf"
@@ -485,6 +541,10 @@ func c01histories(r *vh.Run) []string {
 		for _, b := range kinds {
 			for _, c := range kinds {
 				hs = append(hs, string([]rune{a, b, c}))
+				if len(hs) == 4 {
+					// early in the order, so that their shards reach them before the deadline
+					hs = append(hs, "tHg", "BHe", "dtB")
+				}
 			}
 		}
 	}
@@ -497,7 +557,7 @@ func TestVerif_C01(t *testing.T) {
 	}
 	r := vh.Start(t, "C01", "crash")
 	defer r.Finish()
-	r.Rule("histories = chains of blocks drawn from {empty, ONT transfer, ONG transfer with fee, two transfers, failing transfer}; crash points = before/after every LevelDB Put/Delete/BatchCommit of the block, event, state and cross-chain stores and before/after/torn-within every merkle hash-file append and sync, from genesis initialisation to the last block; each crash is a real SIGKILL of a child process on real files, followed by a reopen (real recovery) in an observer process; non-trivial = crash points after which the stores were at different heights or the reopened height differs from the number of fully committed blocks")
+	r.Rule("histories = chains of blocks drawn from {empty, ONT transfer, ONG transfer with fee, two transfers, failing transfer} plus block-size bands {B: 64 transactions x 12 transfers to fresh accounts, more than 1024 state records; H: 64 x 24, more than 2048 state records} of which every crash point of the large block's own commit is explored; crash points = before/after every LevelDB Put/Delete/BatchCommit of the block, event, state and cross-chain stores and before/after/torn-within every merkle hash-file append and sync, from genesis initialisation to the last block; each crash is a real SIGKILL of a child process on real files, followed by a reopen (real recovery) in an observer process; non-trivial = crash points after which the stores were at different heights or the reopened height differs from the number of fully committed blocks")
 	r.Assume("process death only (as the property states): data written before the kill stays in the OS page cache; goleveldb's batch write is trusted to be atomic with respect to process death")
 	base := vTempDir("c01")
 	defer os.RemoveAll(base)
@@ -509,7 +569,13 @@ func TestVerif_C01(t *testing.T) {
 		hists = []string{rc.History}
 	}
 	twoCrash := r.Thorough()
-	r.Bound(fmt.Sprintf("%d histories; 1 crash at every point; second crash inside recovery/continuation: %v (quick histories only)", len(hists), twoCrash))
+	nlarge := 0
+	for _, h := range hists {
+		if strings.ContainsAny(h, "BH") {
+			nlarge++
+		}
+	}
+	r.Bound(fmt.Sprintf("%d histories (%d of them with a large block: crash points of the large blocks only); 1 crash at every point; second crash inside recovery/continuation: %v (first four histories only)", len(hists), nlarge, twoCrash))
 	work := 0
 	nh := len(hists)
 	for hi, hist := range hists {
@@ -545,6 +611,35 @@ func TestVerif_C01(t *testing.T) {
 		os.RemoveAll(cdir)
 		pts := c01readLog(logFile)
 		r.Need(len(pts) >= 10*len(hist), "history %s has only %d crash points", hist, len(pts))
+		largeHist := strings.ContainsAny(hist, "BH")
+		largePhase := map[string]string{}
+		for bi := 0; bi < len(hist); bi++ {
+			rec := ref.Records[bi]
+			switch hist[bi] {
+			case 'B':
+				r.Need(rec > 1024 && rec <= 2048, "block kind B changes %d state records, expected 1025..2048", rec)
+				largePhase[fmt.Sprintf("block %d", bi+1)] = "records:1025..2048"
+			case 'H':
+				r.Need(rec > 2048, "block kind H changes %d state records, expected more than 2048", rec)
+				largePhase[fmt.Sprintf("block %d", bi+1)] = "records:>2048"
+			default:
+				r.Need(rec <= 1024, "small block kind %c changes %d state records", hist[bi], rec)
+			}
+		}
+		if largeHist {
+			r.Set("records_"+hist, ref.Records)
+			np := 0
+			for _, p := range pts {
+				if largePhase[p.Phase] != "" {
+					np++
+				}
+			}
+			r.Need(np >= 10, "history %s: only %d crash points inside its large blocks", hist, np)
+			r.Add("large_block_crash_points", int64(np))
+			r.Add("crash_points", int64(np))
+		} else {
+			r.Add("crash_points", int64(len(pts)))
+		}
 		if hi == 0 {
 			var lab []string
 			for _, p := range pts {
@@ -555,8 +650,10 @@ func TestVerif_C01(t *testing.T) {
 			r.Set("points_in_one_block", lab)
 			r.Sample(map[string]interface{}{"history": hist, "points": len(pts), "example_point": pts[len(pts)/2]})
 		}
-		r.Add("crash_points", int64(len(pts)))
 		for _, p := range pts {
+			if largeHist && largePhase[p.Phase] == "" && !(replay && p.N == rc.CrashAt) {
+				continue // small blocks of a large-block history: covered by the small histories
+			}
 			work++
 			if !replay && work%nsub != sub%nsub {
 				continue
@@ -567,7 +664,7 @@ func TestVerif_C01(t *testing.T) {
 			if r.Expired() {
 				break
 			}
-			cs := c01case{History: hist, CrashAt: p.N, Label: p.Label, Phase: p.Phase}
+			cs := c01case{History: hist, CrashAt: p.N, Label: p.Label, Phase: p.Phase, Band: largePhase[p.Phase]}
 			dir := filepath.Join(hbase, fmt.Sprintf("crash%d", p.N))
 			c := c01spawn(hbase, "run", dir, refFile, "", p.N, "")
 			r.Eval(1)
@@ -590,6 +687,9 @@ func TestVerif_C01(t *testing.T) {
 					which = "old"
 				}
 				r.Class(c01labelClass(p.Label) + "→height:" + which)
+				if cs.Band != "" {
+					r.Class("large-block " + cs.Band + "→height:" + which)
+				}
 				_ = ok
 			}
 			os.RemoveAll(dir)
@@ -663,7 +763,7 @@ func c01finalAfterSecond(r *vh.Run, hbase, dir, refFile string, ref *c01Ref, cs 
 	ch := c01spawn(hbase, "observe", dir, refFile, outFile, 0, "")
 	b, err := os.ReadFile(outFile)
 	os.Remove(outFile)
-	cls := "second:" + c01labelClass(cs.Label[:strings.Index(cs.Label+" then", " then")])
+	cls := "second:" + c01labelClass(cs.Label[:strings.Index(cs.Label+" then", " then")]) + c01bandSuffix(cs)
 	if err != nil {
 		r.Violationf("recovery-process-died@"+cls, cs, "history %s: reopening after two crashes died: %v\n%s", cs.History, ch.err, tail(ch.out, 1200))
 		return nil
